@@ -53,4 +53,5 @@ CONSTANTS
  Regulate_ = TRUE
  OptFlips = {}
  FreeIdSends = FALSE
+ LateSends = FALSE
  Msgs = {"m1"}
